@@ -409,6 +409,21 @@ let () =
           if !dropall_gc && ps.handles = [] && ps.inner <> expect0 then
             fail step "C05" "prop"
               (Printf.sprintf "after dropping all handles and gc() %d inner nodes remain (a fresh manager with these variables has %d)" ps.inner expect0);
+          (* MTBDD: terminals are reference counted as well: a collection frees exactly the terminals that
+             neither a handle nor a stored node refers to *)
+          if kname = "mtbdd" then (
+            let used : (string, unit) Hashtbl.t = Hashtbl.create 16 in
+            let mark (e : Model.edge) = match e.Model.eref with Model.RT t -> Hashtbl.replace used (string_of_n t) () | _ -> () in
+            List.iter (fun (_, e) -> mark e) ps.handles;
+            List.iter (fun (_, nd) -> List.iter mark nd.Model.nchildren) (Model.PositiveMap.elements s.Model.s_nodes);
+            List.iter (fun (t, _) ->
+                if not (Hashtbl.mem used (string_of_n t)) then
+                  fail step "C05" "prop" (Printf.sprintf "terminal t%s without any reference survived gc()" (string_of_n t)))
+              s.Model.s_terms;
+            if ps.nterms <> List.length s.Model.s_terms then
+              fail step "C05" "prop" (Printf.sprintf "num_terminals() = %d but %d terminals are listed" ps.nterms (List.length s.Model.s_terms));
+            if !dropall_gc && ps.handles = [] && ps.nterms <> 0 then
+              fail step "C05" "prop" (Printf.sprintf "after dropping all handles and gc() %d terminals remain" ps.nterms));
           gc_pending := false; dropall_gc := false);
         if !init_inner < 0 && ps.handles = [] then init_inner := ps.inner;
         (* value tables of all handles *)
